@@ -130,6 +130,18 @@ func c18World() *ref.World {
 	return w
 }
 
+// c18WorldAlt: every comparison of the base world comes out the other way, the float is not a number.
+func c18WorldAlt() *ref.World {
+	w := ref.NewWorld()
+	f := facts.New()
+	f.I, f.I2, f.F, f.S, f.B = 3, 5, math.NaN(), "x\"y", false
+	w.Objs["F"] = f
+	w.Objs["K"] = facts.New()
+	return w
+}
+
+var c18Worlds = []func() *ref.World{c18World, c18WorldAlt}
+
 type c18Case struct {
 	id    string
 	when  interface{}
@@ -315,6 +327,34 @@ func C18(rep *ev.Reporter, tier string) {
 		addWhen("unary-not-operand", jm("not", n1, false))
 		addWhen("unary-not-operand", jm("eq", n2, n1))
 	}
+	// unary not over 3-operand chains and over comparisons with the float fact (not a number in the second world)
+	for _, op := range []string{"eq", "not"} {
+		for _, a := range boolLeaves {
+			for _, b := range boolLeaves {
+				for _, c := range boolLeaves {
+					addWhen("unary-not-3ary", jm("not", jm(op, a, b, c)))
+				}
+			}
+		}
+	}
+	for _, op := range []string{"and", "or"} {
+		for _, a := range boolObjLeaves {
+			for _, b := range boolObjLeaves {
+				for _, c := range boolObjLeaves {
+					addWhen("unary-not-3ary", jm("not", jm(op, a, b, c)))
+				}
+			}
+		}
+	}
+	for _, op := range cmpo {
+		for _, l := range []interface{}{"F.I", 1.0, jo("const", 2.5), "F.F", jm("div", jo("const", 0.0), "F.F")} {
+			addWhen("float-fact-cmp", jm(op, "F.F", l))
+			addWhen("float-fact-cmp", jm(op, l, jo("obj", "F.F")))
+			addWhen("unary-not-float-fact-cmp", jm("not", jm(op, "F.F", l)))
+			addWhen("unary-not-float-fact-cmp", jm("not", jm(op, l, jo("obj", "F.F"))))
+			addWhen("unary-not-float-fact-cmp", jm("not", jm("not", jm(op, l, "F.F"))))
+		}
+	}
 	for _, l := range boolLeaves {
 		addWhen("unary-not-leaf", jm("not", l))
 		addWhen("unary-not-leaf", jm("not", jm("not", l)))
@@ -379,7 +419,8 @@ func C18(rep *ev.Reporter, tier string) {
 		rep.Violation(sig, what+"\n  json: "+string(js)+"\n  grl: "+strings.ReplaceAll(grlText, "\n", "\n       "), map[string]interface{}{"case": c.id, "json": string(js), "grl": grlText})
 		mu.Unlock()
 	}
-	ParallelEach(len(cases), func(i int) {
+	ParallelEach(len(cases)*len(c18Worlds), func(k int) {
+		i, mk := k/len(c18Worlds), c18Worlds[k%len(c18Worlds)]
 		c := &cases[i]
 		if rep.ReplayFilter != "" && rep.ReplayFilter != c.id {
 			return
@@ -448,13 +489,13 @@ func C18(rep *ev.Reporter, tier string) {
 			return
 		}
 		// is the rule well-typed per the reference? (condition evaluates to a bool; actions apply)
-		wref := c18World()
+		wref := mk()
 		cond, cerr := (&ref.Evaluator{W: wref}).EvalBool(whenE)
 		if cerr != nil {
 			atomic.AddInt64(&unjudged, 1)
 			return
 		}
-		model := c18World()
+		model := mk()
 		var eff ref.Effect
 		if cond {
 			evl := &ref.Evaluator{W: model}
@@ -490,7 +531,7 @@ func C18(rep *ev.Reporter, tier string) {
 			report("C18:metadata-differs:"+sigTail, fmt.Sprintf("rule entry %+v", re), c, text)
 			return
 		}
-		w := c18World()
+		w := mk()
 		res := hx.Fetch(kb, w, false, 0)
 		got := len(res.Names) == 1
 		if got != cond {
@@ -499,7 +540,7 @@ func C18(rep *ev.Reporter, tier string) {
 		}
 		atomic.AddInt64(&nontrivial, 1)
 		kb2, _ := lib.NewKnowledgeBaseInstance(hx.KBName, hx.KBVer)
-		w2 := c18World()
+		w2 := mk()
 		tr := hx.RunOn(&hx.Program{ByName: map[string]*grl.Rule{}}, kb2, w2, hx.RunOpts{MaxCycle: 2, NoSnapshots: true}, nil)
 		if tr.Err != nil && !hx.IsLimitErr(tr.Err) {
 			report("C18:translated-rule-fails:"+sigTail, tr.Err.Error(), c, text)
@@ -510,7 +551,7 @@ func C18(rep *ev.Reporter, tier string) {
 				report("C18:action-meaning-differs:"+sigTail, "facts after the translated rule fired differ from the direct reading of the JSON actions\nmodel:\n"+model.Dump()+"real:\n"+w2.Dump(), c, text)
 			}
 		}
-		if i%500 == 0 {
+		if k%1000 == 0 {
 			js, _ := json.Marshal(rule)
 			rep.Sample(map[string]interface{}{"case": c.id, "json": string(js), "grl": text})
 		}
@@ -527,7 +568,7 @@ func C18(rep *ev.Reporter, tier string) {
 		rep.Exhaustive = false
 		rep.Coverage["caps_hit"] = "time budget"
 	}
-	rep.Coverage["rule"] = "every JSON operator tree of depth 1 over all 15 operators and operand forms {plain string, number, bool, obj, const of each kind}; depth 2 with a nested operand on either side (quick: every 3rd depth-1 node as nested operand; thorough: all, both sides nested, depth-3 logic trees); 3-operand forms; nesting of the same operator on either side where it is not associative (mixed int/string concatenation, float rounding); unary not stacked 1..4 deep and as operand; set/call trees in `then`; calls with nested arguments; hostile string constants; boundary numeric constants; names/descriptions/saliences; malformed rules; one resource value loaded repeatedly while the document behind it changes (in place or replaced). Oracle: the JSON tree is read directly (operands grouped exactly as nested, n-ary left-associated) and evaluated by the reference evaluator; the translated text must be accepted by the real builder, keep name/description/salience, give the same candidate flag and the same facts after firing. Ill-typed trees (per the reference) are not judged. Non-trivial: a well-typed tree whose translated rule was built and compared."
+	rep.Coverage["rule"] = "every JSON operator tree of depth 1 over all 15 operators and operand forms {plain string, number, bool, obj, const of each kind}; depth 2 with a nested operand on either side (quick: every 3rd depth-1 node as nested operand; thorough: all, both sides nested, depth-3 logic trees); 3-operand forms; nesting of the same operator on either side where it is not associative (mixed int/string concatenation, float rounding); unary not stacked 1..4 deep, as operand, over 3-operand chains and over comparisons with a float fact; every case on two worlds (in the second every leaf comparison comes out the other way and the float fact is not a number); set/call trees in `then`; calls with nested arguments; hostile string constants; boundary numeric constants; names/descriptions/saliences; malformed rules; one resource value loaded repeatedly while the document behind it changes (in place or replaced). Oracle: the JSON tree is read directly (operands grouped exactly as nested, n-ary left-associated) and evaluated by the reference evaluator; the translated text must be accepted by the real builder, keep name/description/salience, give the same candidate flag and the same facts after firing. Ill-typed trees (per the reference) are not judged. Non-trivial: a well-typed tree whose translated rule was built and compared."
 }
 
 func c18FloatSink(w *ref.World) (float64, bool) { return w.Objs["K"].F, true }
